@@ -25,6 +25,7 @@ PROP_MODULES = {
     "C11": ["contracts.c11"],
     "C12": ["contracts.c12"],
     "C09": ["contracts.c09"],
+    "C10": ["contracts.c10"],
 }
 
 
